@@ -15,6 +15,7 @@ import (
 type dgram struct {
 	b    []byte
 	addr net.Addr
+	late bool // in flight when Shutdown begins (inflight_test.go): the read that takes it returns only after Shutdown's SetReadDeadline
 }
 
 type memPC struct {
@@ -32,6 +33,8 @@ type memPC struct {
 	wdlSets      []string // every SetWriteDeadline call
 	wdlExpired   []string // every WriteTo that failed because the write deadline had passed
 	noAddr       int      // WriteTo calls without a destination address (refused, as a socket does)
+	lateHeld     bool     // the serve loop's read has taken the datagram that is in flight at Shutdown and has not returned yet
+	lateReturned int      // such reads that returned their datagram after Shutdown had begun
 }
 
 // bufferMu orders the harness's own accesses to receive buffers of the in-memory datagram socket:
@@ -61,6 +64,18 @@ func (p *memPC) ReadFrom(b []byte) (int, net.Addr, error) {
 			bufferMu.Lock()
 			n := copy(b, k.b)
 			bufferMu.Unlock()
+			if k.late {
+				// the read has completed; its caller gets to run again only when Shutdown has marked the
+				// server as stopping and moved the read deadline into the past (the datagram that arrives
+				// in the instant in which a server is shut down). It is a datagram the server received.
+				p.lateHeld = true
+				p.cond.Broadcast()
+				for !p.closed && !p.clock.expired(p.rdl) {
+					p.cond.Wait()
+				}
+				p.lateHeld = false
+				p.lateReturned++
+			}
 			return n, k.addr, nil
 		}
 		p.waiting = true
@@ -85,7 +100,7 @@ func (p *memPC) WriteTo(b []byte, a net.Addr) (int, error) {
 		p.noAddr++
 		return 0, &net.OpError{Op: "write", Net: "mem", Err: errors.New("missing address")}
 	}
-	p.out = append(p.out, dgram{append([]byte{}, b...), a})
+	p.out = append(p.out, dgram{b: append([]byte{}, b...), addr: a})
 	p.cond.Broadcast()
 	return len(b), nil
 }
@@ -152,9 +167,11 @@ func (p *memPC) deadlineLog() (sets, expired []string) {
 	return append([]string{}, p.wdlSets...), append([]string{}, p.wdlExpired...)
 }
 
-func (p *memPC) inject(b []byte, a net.Addr) {
+func (p *memPC) inject(b []byte, a net.Addr) { p.injectLate(b, a, false) }
+
+func (p *memPC) injectLate(b []byte, a net.Addr, late bool) {
 	p.mu.Lock()
-	p.in = append(p.in, dgram{b, a})
+	p.in = append(p.in, dgram{b, a, late})
 	p.cond.Broadcast()
 	p.mu.Unlock()
 }
@@ -167,7 +184,7 @@ func (p *memPC) waitDrained(d time.Duration) bool {
 	defer t.Stop()
 	p.mu.Lock()
 	defer p.mu.Unlock()
-	for !(len(p.in) == 0 && p.waiting) {
+	for !(len(p.in) == 0 && (p.waiting || p.lateHeld)) {
 		if time.Now().After(end) {
 			return false
 		}
@@ -206,7 +223,7 @@ func (p *memPC) holdReport(short bool) bool {
 	defer t.Stop()
 	p.mu.Lock()
 	defer p.mu.Unlock()
-	for p.reads < r0+2 && !(len(p.in) == 0 && p.waiting) && !p.closed && !p.clock.expired(p.rdl) && !timedOut {
+	for p.reads < r0+2 && !(len(p.in) == 0 && (p.waiting || p.lateHeld)) && !p.closed && !p.clock.expired(p.rdl) && !timedOut {
 		p.cond.Wait()
 	}
 	if timedOut {
